@@ -13,7 +13,9 @@ Inductive c24case :=
 | EncCase (h : handle) (impl_bytes : list N)
 | DecCase (bs : list N) (impl : option handle)
 | OffCase (hashMod : Z) (id : uuid) (impl_block impl_slot : Z)
-| WriteCase (slot : Z) (h : handle) (impl_slot_bytes : list N) (impl_crc_off : Z) (crc : N) (impl_crc_bytes : list N).
+| WriteCase (slot : Z) (h : handle) (impl_slot_bytes : list N) (impl_crc_off : Z) (crc : N) (impl_crc_bytes : list N)
+(* real registry write path: byte offsets of the block that changed when slot was written *)
+| RegPathCase (slot : Z) (changed : list Z).
 
 Definition c24_check (c : c24case) : bool :=
   match c with
@@ -29,4 +31,8 @@ Definition c24_check (c : c24case) : bool :=
   | WriteCase slot h sb off crc cb =>
       list_N_eqb (encode h) sb && Z.eqb off (B_ - crc_len) && list_N_eqb (le_bytes 4 crc) cb
       && Z.leb 0 slot && Z.ltb slot handlesPerBlock
+  | RegPathCase slot changed =>
+      Z.leb 0 slot && Z.ltb slot handlesPerBlock &&
+      forallb (fun k => (Z.leb (fst (slot_range slot)) k && Z.ltb k (snd (slot_range slot)))
+                        || (Z.leb (fst crc_range) k && Z.ltb k (snd crc_range))) changed
   end.
